@@ -155,6 +155,10 @@ def build(want_nc=False, verbose=True):
     key, nfiles = repo_key()
     snap = os.path.join(CACHE, "facts", "snap-" + key)
     if os.path.exists(os.path.join(snap, "DONE")) and (not want_nc or os.path.exists(os.path.join(snap, "DONE-nc"))):
+        try:
+            os.utime(snap)
+        except OSError:
+            pass
         return snap
     lock = open(os.path.join(CACHE, "build.lock"), "w")
     fcntl.flock(lock, fcntl.LOCK_EX)
@@ -197,7 +201,9 @@ def build(want_nc=False, verbose=True):
         # keep the three most recent snapshots
         snaps = sorted(glob.glob(os.path.join(CACHE, "facts", "snap-*")), key=os.path.getmtime)
         for old in snaps[:-3]:
-            if old != snap:
+            # a snapshot used within the last hour may belong to a check that is still running
+            # (checks of different trees can run side by side)
+            if old != snap and time.time() - os.path.getmtime(old) > 3600:
                 shutil.rmtree(old, ignore_errors=True)
         if verbose:
             print("[facts] built snapshot %s in %.1fs" % (key, time.time() - t0), file=sys.stderr)
